@@ -30,6 +30,11 @@ def leaf():
         ("IntU31", "(0..2147483647)"), ("IntI16Hi", "(-1..32767)"), ("IntI16HiP", "(-1..32768)"),
         # extensible with an open end (the attribute is printed with the `max` / `min` keyword)
         ("IntSemiExt", "(5..MAX,...)"), ("IntNegSemiExt", "(-5..MAX,...)"),
+        # extensible roots at the 32-bit boundaries: the Rust type (u64 / i64) and the protobuf scalar type
+        # (uint64 / sint64) do not depend on the root; IntExtI32 has root values with |v| >= 2^30
+        ("IntExtU32", "(0..4294967295,...)"), ("IntExtU32P", "(0..4294967296,...)"),
+        ("IntExtI32", "(-2147483648..2147483647,...)"), ("IntExtI32LoM", "(-2147483649..0,...)"),
+        ("IntExtNegOnly", "(-1000..-1,...)"),
     ]
     for n, c in ints:
         d.append(f"{n} ::= INTEGER {c}")
